@@ -9,17 +9,32 @@ LEVEL = "model_checking"
 LEVEL_TEXT = ("AuthFlow.tla models the calls protocol handlers make into the path manager (FindPathConf, Describe, AddReader, "
               "AddPublisher with / without skipAuth and ConfToCompare) interleaved with configuration reloads; TLC checks "
               "AttachOnlyIfAdmitted, SkipAuthOnlyAfterAuth and PublisherConfStillInForce for every flow shape and admission outcome "
-              "and enumerates the scenario space; every scenario is played by a real client (gortsplib, gortmplib, gosrt, net/http) "
+              "and enumerates the scenario space; every scenario is played by a real client (gortsplib, gortmplib, gosrt, quic-go, the WHIP client, net/http) "
               "against a real core.Core whose path manager's authManager is wrapped by a recorder; TLC evaluates the statement on "
               "the recorded Authenticate calls, reloads and the attachment read from the path manager's API; 'admitted' is C01's "
               "statement formula over the configured users")
-LEVEL_NOTE = ("routes: direct path-manager calls (FindPathConf, AddPublisher with ConfToCompare), real clients for RTSP, RTMP, SRT (publish and read), HLS (read, client IP through the trusted proxy); "
-              "WebRTC and MoQ flows are covered by the model only; reload between authorization and attachment (none / another entry / non-hot field / only a hot-reloadable "
+LEVEL_NOTE = ("routes: direct path-manager calls (FindPathConf, AddPublisher with ConfToCompare), real clients for RTSP, RTMP, SRT, MoQ over native QUIC (publish and read), WebRTC WHIP/WHEP (every credential placement at HTTP level; real sessions with the repository's WHIP client over loopback ICE: 9 in quick, the whole space in thorough), HLS (read, client IP through the trusted proxy); "
+              "MoQ over WebTransport, RTSPS and RTMPS are not bound; reload between authorization and attachment (none / another entry / non-hot field / only a hot-reloadable "
               "field of the same entry / name re-homed to a new exact entry; effect measured at the path manager) is "
               "client-driven (RTSP: ANNOUNCE..RECORD, RTMP / SRT: accepted publish request..first tracks); one fresh path name per scenario")
 TECHNIQUE = "TLA+ model (TLC): exhaustive bounded MC + generated scenarios replayed on a real Core + trace validation"
 
 PKG = "./internal/core/"
+
+
+def _full_wanted(ctx, x, rep):
+    """WebRTC sessions over loopback ICE take seconds each: a handful in the quick tier, one pass of the
+    whole space (client address inside / outside the allowed host) in the thorough tier"""
+    if ctx.thorough:
+        return rep == 0 and x["ip"] != "10.0.0.50"
+    key = (x["action"], x["cred"], x["cls"], x["reload"], x["ip"])
+    return key in {
+        ("publish", "alice", "a", "none", "10.0.0.5"), ("publish", "alice", "a", "hot", "10.0.0.5"),
+        ("publish", "reader", "a", "none", "10.0.0.5"), ("publish", "puba", "b", "none", "10.0.1.5"),
+        ("publish", "dave", "a", "none", "10.0.0.50"),
+        ("read", "alice", "a", "none", "10.0.1.5"), ("read", "puba", "a", "none", "10.0.0.5"),
+        ("read", "none", "b", "none", "10.0.0.5"), ("read", "dave", "a", "none", "10.0.0.5"),
+    }
 
 
 def run(ctx):
@@ -47,8 +62,12 @@ def run(ctx):
     cases = []
     for rep in range(reps):
         for x in scen:
+            if x["mode"] == "full" and not _full_wanted(ctx, x, rep):
+                continue
+            if x["mode"] == "http" and rep > 0:
+                continue
             cid = len(cases) + 1
-            c = {k: x[k] for k in ("proto", "action", "cls", "cred", "user", "pass", "ip", "reload")}
+            c = {k: x[k] for k in ("proto", "mode", "place", "action", "cls", "cred", "user", "pass", "ip", "reload")}
             c["id"] = cid
             c["name"] = "vf%s%dr%ds%s" % (x["cls"], cid, rep, ctx.seed)
             cases.append(c)
@@ -73,18 +92,18 @@ def run(ctx):
             continue
         seen.add(bad["l"])
         x = recs[bad["l"] - 1]
-        rec = {k: x[k] for k in ("proto", "action", "cls", "cred", "ip", "reload")}
+        rec = {k: x[k] for k in ("proto", "mode", "place", "action", "cls", "cred", "ip", "reload")}
         rec["attached"] = x["attached"]
-        ctx.violation(rec, "%s %s of path %s (class %s) with credentials %s from %s, reload between authorization and attachment: %s: "
+        ctx.violation(rec, "%s %s of path %s (class %s) with credentials %s (placement %s) from %s, reload between authorization and attachment: %s: "
                            "the client is attached although the statement's conditions do not hold; Authenticate calls and "
                            "reloads seen for this path: %s (client: %s)" % (
-                               x["proto"], x["action"], x["name"], x["cls"], x["cred"], x["ip"], x["reload"],
+                               x["proto"], x["action"], x["name"], x["cls"], x["cred"], x["place"], x["ip"], x["reload"],
                                json.dumps(x["events"])[:1500], x.get("note", "")))
     drift = list({x["l"]: x for x in tv.tagged("DRIFT")}.values())
     for dd in drift[:4]:
         x = recs[dd["l"] - 1]
         ctx.note("DRIFT scenario %s: attached=%s, manager answers agree with the statement=%s, note=%s, events=%s" % (
-            {k: x[k] for k in ("proto", "action", "cls", "cred", "ip", "reload")}, x["attached"], dd["agree"],
+            {k: x[k] for k in ("proto", "mode", "place", "action", "cls", "cred", "ip", "reload")}, x["attached"], dd["agree"],
             x.get("note", ""), json.dumps(x["events"])[:500]))
     phases["tlc_trace_validation"] = round(time.time() - t0, 1)
     ctx.set("phase_wall_s", phases)
